@@ -254,3 +254,55 @@ void env_reset(uint64_t seed)
     clock_ms = 0;
     env_alloc_count = env_fail_at = env_fail_from = env_failed = 0;
 }
+
+/* ------------------------------------------------- record-protection seam
+ * Pass-through wrappers around the AEAD/CBC primitives the TLS layer calls
+ * (libssl_s.a -> libcrypt_s.a, so --wrap sees every call).  A driver that sets
+ * env_crypto_hook observes (op, ctx, key/nonce, data) of every seal. */
+void (*env_crypto_hook)(int op, const void *ctx, const unsigned char *a, int alen, const unsigned char *b, unsigned blen);
+
+int32_t __real_psAesInitGCM(psAesGcm_t *ctx, const unsigned char *key, uint8_t keylen);
+void __real_psAesReadyGCM(psAesGcm_t *ctx, const unsigned char *IV, const unsigned char *aad, psSize_t aadLen);
+void __real_psAesEncryptGCM(psAesGcm_t *ctx, const unsigned char *pt, unsigned char *ct, uint32_t len);
+int32_t __real_psAesInitCBC(psAesCbc_t *ctx, const unsigned char *IV, const unsigned char *key, uint8_t keylen, uint32_t flags);
+void __real_psAesEncryptCBC(psAesCbc_t *ctx, const unsigned char *pt, unsigned char *ct, uint32_t len);
+psRes_t __real_psChacha20Poly1305IetfInit(psChacha20Poly1305Ietf_t *c, const unsigned char *key);
+psResSize_t __real_psChacha20Poly1305IetfEncrypt(psChacha20Poly1305Ietf_t *c, const unsigned char *pt, psSizeL_t ptlen,
+    const unsigned char *iv, const unsigned char *aad, psSizeL_t aadlen, unsigned char *ct);
+
+int32_t __wrap_psAesInitGCM(psAesGcm_t *ctx, const unsigned char *key, uint8_t keylen)
+{
+    if (env_crypto_hook) env_crypto_hook(ENV_OP_GCM_INIT, ctx, key, keylen, NULL, 0);
+    return __real_psAesInitGCM(ctx, key, keylen);
+}
+void __wrap_psAesReadyGCM(psAesGcm_t *ctx, const unsigned char *IV, const unsigned char *aad, psSize_t aadLen)
+{
+    if (env_crypto_hook) env_crypto_hook(ENV_OP_GCM_READY, ctx, IV, 12, aad, aadLen);
+    __real_psAesReadyGCM(ctx, IV, aad, aadLen);
+}
+void __wrap_psAesEncryptGCM(psAesGcm_t *ctx, const unsigned char *pt, unsigned char *ct, uint32_t len)
+{
+    if (env_crypto_hook) env_crypto_hook(ENV_OP_GCM_ENC, ctx, NULL, 0, pt, len);
+    __real_psAesEncryptGCM(ctx, pt, ct, len);
+}
+int32_t __wrap_psAesInitCBC(psAesCbc_t *ctx, const unsigned char *IV, const unsigned char *key, uint8_t keylen, uint32_t flags)
+{
+    if (env_crypto_hook) env_crypto_hook(ENV_OP_CBC_INIT, ctx, key, keylen, IV, 16);
+    return __real_psAesInitCBC(ctx, IV, key, keylen, flags);
+}
+void __wrap_psAesEncryptCBC(psAesCbc_t *ctx, const unsigned char *pt, unsigned char *ct, uint32_t len)
+{
+    if (env_crypto_hook) env_crypto_hook(ENV_OP_CBC_ENC, ctx, NULL, 0, pt, len);
+    __real_psAesEncryptCBC(ctx, pt, ct, len);
+}
+psRes_t __wrap_psChacha20Poly1305IetfInit(psChacha20Poly1305Ietf_t *c, const unsigned char *key)
+{
+    if (env_crypto_hook) env_crypto_hook(ENV_OP_CHACHA_INIT, c, key, 32, NULL, 0);
+    return __real_psChacha20Poly1305IetfInit(c, key);
+}
+psResSize_t __wrap_psChacha20Poly1305IetfEncrypt(psChacha20Poly1305Ietf_t *c, const unsigned char *pt, psSizeL_t ptlen,
+    const unsigned char *iv, const unsigned char *aad, psSizeL_t aadlen, unsigned char *ct)
+{
+    if (env_crypto_hook) env_crypto_hook(ENV_OP_CHACHA_ENC, c, iv, 12, pt, (unsigned) ptlen);
+    return __real_psChacha20Poly1305IetfEncrypt(c, pt, ptlen, iv, aad, aadlen, ct);
+}
